@@ -39,8 +39,10 @@ type Op struct {
 	// logged from package Pkg ("a"/"b"; with Alt the packages alternate per line).
 	// Every DupEvery-th line (DupEvery>0) is logged 1+Rep times in a row from the
 	// same call site (identical consecutive lines). With Twin every text is
-	// logged a second time directly afterwards with the next severity (same text,
-	// not identical: must not be merged). F selects the Printf-style functions.
+	// logged a second time directly afterwards, 1: with the next severity, 2: from
+	// the other package (same text, not identical: must not be merged). F selects
+	// the Printf-style functions; Via calls through a function table, so that all
+	// severities share ONE call site (file and line) and only the level differs.
 	N        int    `json:"n,omitempty"`
 	Sev      int    `json:"s,omitempty"`
 	Step     int    `json:"st,omitempty"`
@@ -48,8 +50,9 @@ type Op struct {
 	Alt      bool   `json:"alt,omitempty"`
 	DupEvery int    `json:"de,omitempty"`
 	Rep      int    `json:"r,omitempty"`
-	Twin     bool   `json:"tw,omitempty"`
+	Twin     int    `json:"tw,omitempty"`
 	F        bool   `json:"f,omitempty"`
+	Via      bool   `json:"v,omitempty"`
 	// OpTracer: severities of the collected lines (1..5 of them), package Pkg.
 	Sevs []int `json:"sv,omitempty"`
 	// OpPkg: package name -> level ("pkga", "pkgb", or an unrelated name).
@@ -124,6 +127,7 @@ type Line struct {
 	Sev  int
 	Pkg  string // "pkga" / "pkgb"
 	F    bool
+	Via  bool
 }
 
 // Event is one expanded step of a goroutine.
@@ -177,16 +181,24 @@ func (e *Expander) Expand(op Op) []Event {
 					p = "b"
 				}
 			}
-			ln := Line{Text: Text(e.G, e.next), Sev: wrapSev(op.Sev + j*op.Step), Pkg: pkgName(p), F: op.F}
+			ln := Line{Text: Text(e.G, e.next), Sev: wrapSev(op.Sev + j*op.Step), Pkg: pkgName(p), F: op.F && !op.Via, Via: op.Via}
 			e.next++
 			times := 1
 			if op.DupEvery > 0 && j%op.DupEvery == op.DupEvery-1 {
 				times = 1 + op.Rep
 			}
 			out = append(out, Event{Kind: OpLines, Line: ln, Times: times})
-			if op.Twin {
+			if op.Twin != 0 {
 				tw := ln
-				tw.Sev = wrapSev(ln.Sev + 1)
+				if op.Twin == 2 {
+					if tw.Pkg == "pkga" {
+						tw.Pkg = "pkgb"
+					} else {
+						tw.Pkg = "pkga"
+					}
+				} else {
+					tw.Sev = wrapSev(ln.Sev + 1)
+				}
 				out = append(out, Event{Kind: OpLines, Line: tw, Times: 1})
 			}
 		}
